@@ -169,3 +169,15 @@ META["C17"] = dict(
          "theorems (C17_close_quiescent, C17_no_fs_after_close) are being proved.",
     note="Trusts: Lean kernel; the goroutine dump / procfs / stat observations of the harness; 70 ms observation window after Close.",
 )
+
+META["C09"] = dict(
+    engine="lean+harness(seq,crash)",
+    design_ref="DESIGN.md section 5, C09",
+    technique="byte-level Lean model of translateIndex/MoveFiles compared with the real re-bucketing; crash images at every move recovered by the real code; map oracle",
+    text="Model of translateIndex (old index opened with its own bits, entries iterated in bucket order, re-inserted through index.Put into "
+         "a fresh index whose flush order is a parameter, directory swap) compared byte-for-byte with the real store over hundreds of "
+         "re-bucketings and refused opens; crash images inside the translation are recovered by the real code. The theorem C09_translate "
+         "(abs preserved, Inv for the new bit size) is not yet proved; it rests on the proved C08 insertion theorems and C01 refinement. "
+         "Known finding D13 (no atomic swap).",
+    note=SEQ_NOTE,
+)
